@@ -1828,6 +1828,7 @@ func (c *Ctx) rulesR3batch3(only string) {
 						}
 						n++
 						isLen := func(e ssa.Value) bool {
+							e = c.hostedArg(e, np)
 							if call, ok := e.(*ssa.Call); ok {
 								if bi, ok := call.Call.Value.(*ssa.Builtin); ok && bi.Name() == "len" {
 									return true
@@ -1852,7 +1853,9 @@ func (c *Ctx) rulesR3batch3(only string) {
 					}
 				}
 			}
-			visit(np)
+			for _, hf := range c.hostedFns(np) {
+				visit(hf)
+			}
 			if n < 1 {
 				c.fail("C15.loopmax", "NormalizingPoolState: the fork loop is bounded by Max", np.Pos(), "no counter is compared with Supervisor.Max in NormalizingPoolState: nothing keeps existing+forked workers within Max")
 			}
